@@ -170,7 +170,10 @@ def run_shard(ctx):
     for i in range(n):
         # every third history also attempts operations on an incomplete database: they fail
         # atomically (MissingTrieNode) or succeed, and the root must stay canonical afterwards
-        if i % 25 == 24:
+        if i % 5 == 3:
+            case = hh.gen_threshold_history(rnd)
+            ctx.count("threshold_histories")
+        elif i % 25 == 24:
             case = hh.gen_bulk_history(rnd, ctx.tier)
             ctx.count("bulk_histories")
         else:
